@@ -21,7 +21,10 @@ import (
 	"github.com/plgd-dev/go-coap/v3/udp/client"
 	udpcoder "github.com/plgd-dev/go-coap/v3/udp/coder"
 
+	dtlsserver "github.com/plgd-dev/go-coap/v3/dtls/server"
+
 	"verif/vrt"
+	"verif/worlds/tcpw"
 )
 
 type Out struct {
@@ -106,9 +109,15 @@ type Opts struct {
 	MaxMsgSize    uint32
 	BWTimeout     time.Duration
 	Process       config.ProcessReceivedMessageFunc[*client.Conn]
+	// DTLS: instead of the in-memory Session use the REAL dtls/server.Session (the session type of
+	// dtls.Dial/Client and of DTLS server conns) over a datagram-preserving in-memory net.Conn
+	DTLS bool
 }
 
 type World struct {
+	DSt     *tcpw.Stream // DTLS mode: the fake socket
+	dseen   int
+	RunDone bool
 	CC      *client.Conn
 	Sess    *Session
 	Outs    []Out
@@ -173,6 +182,13 @@ func New(o Opts) *World {
 	if o.Monitor != nil {
 		opts = append(opts, client.WithInactivityMonitor(o.Monitor()))
 	}
+	if o.DTLS {
+		w.DSt = &tcpw.Stream{Handshake: func(context.Context) error { return nil }}
+		sess := dtlsserver.NewSession(context.Background(), coapNet.NewConn(dtlsConn{w.DSt}), o.MaxMsgSize, 1472, true)
+		w.CC = client.NewConnWithOpts(sess, &cfg, opts...)
+		vrt.Lib("dtls-session-run", func() { _ = w.CC.Run(); w.RunDone = true })
+		return w
+	}
 	w.CC = client.NewConnWithOpts(w.Sess, &cfg, opts...)
 	return w
 }
@@ -205,11 +221,23 @@ func Decode(b []byte) message.Message {
 	return m
 }
 
-// Inject delivers a datagram to the conn as the session's read loop would.
-func (w *World) Inject(m message.Message) error { return w.CC.Process(nil, Encode(m)) }
+// Inject delivers a datagram to the conn as the session's read loop would (DTLS mode: through the
+// real session's read loop).
+func (w *World) Inject(m message.Message) error { return w.InjectRaw(Encode(m)) }
 
 // InjectRaw delivers arbitrary bytes.
-func (w *World) InjectRaw(b []byte) error { return w.CC.Process(nil, b) }
+func (w *World) InjectRaw(b []byte) error {
+	if w.DSt != nil {
+		w.DSt.In = append(w.DSt.In, append([]byte{}, b...))
+		return nil
+	}
+	return w.CC.Process(nil, b)
+}
+
+// dtlsConn gives the stream a HandshakeContext (as *dtls.Conn has).
+type dtlsConn struct{ *tcpw.Stream }
+
+func (d dtlsConn) HandshakeContext(ctx context.Context) error { return d.Stream.Handshake(ctx) }
 
 // Tick advances the virtual clock and runs the housekeeping the periodic runner would run.
 func (w *World) Tick(d time.Duration) {
@@ -228,6 +256,12 @@ func (w *World) PeerMID() int32 { w.nextMID += 7; return 20000 + w.nextMID }
 
 // NewOuts returns the datagrams written since the last call.
 func (w *World) NewOuts() []Out {
+	if w.DSt != nil {
+		for ; w.dseen < len(w.DSt.Writes); w.dseen++ {
+			raw := w.DSt.Writes[w.dseen]
+			w.Outs = append(w.Outs, Out{At: vrt.Now(), Raw: raw, M: Decode(raw)})
+		}
+	}
 	o := w.Outs[w.Seen:]
 	w.Seen = len(w.Outs)
 	return o
